@@ -40,6 +40,7 @@ var commands = map[string]func([]string){
 	"sql-read":       cmdSQLRead,
 	"sql-cases":      cmdSQLCases,
 	"json-docs":      cmdJSONDocs,
+	"conc":           cmdConc,
 }
 
 func main() {
